@@ -840,3 +840,17 @@ LEVEL_NOTE = ("Trusted: Coq kernel+VM, translator, the hand models named in TRUS
               "exact_time_text_is_a_time and expected so by the oracle.")
 TECHNIQUE = ("Coq proof (finite reflection over the leap flag x day-of-year, lia with Euclidean division, symbolic execution of the Rust descent on shaped strings, regex shape "
              "invariance + one kernel computation per text shape for the pure-Python parser); differential correspondence; constructive oracle")
+
+
+# the compiled parser's date conversions are translated from /repo on every run and the hand model is PROVED equal to them
+TRUSTED = list(TRUSTED) + [
+    "tools/vlib/rust2gallina.py + tools/vlib/gens/g59_rust_parsing_dates.py (Parser::ordinal_to_ymd and Parser::iso_to_ymd extracted by name from rust/src/parsing.rs and translated: "
+    "wrap-around arithmetic of coq/Model/RustInt.v, `for i in 1..14` as a fuel-based Fixpoint with an explicit return / exhausted / out-of-fuel outcome, Result as option with the argument of "
+    "Err(..) skipped, `&mut self` dropped, an `if` that contains a return duplicates the rest of the function; fails closed otherwise): replaces the former trust in the hand transcription "
+    "rs_ordinal_to_ymd / rs_ord_loop / rs_iso_to_ymd of coq/Model/IsoParse.v, now PROVED equal to the translation (model_is_code_rs_ordinal_to_ymd, model_is_code_rs_iso_to_ymd; years 1..100000, "
+    "closed under the global context)",
+]
+LEVEL_NOTE = LEVEL_NOTE + (" Compiled parser = model (date conversions): coq/Gen/RustParsingDatesGen.v is translated from rust/src/parsing.rs on every run and Proofs/RustParsingDatesFacts.v proves "
+                           "it equal to Model/IsoParse.rs_ordinal_to_ymd / rs_iso_to_ymd, so an edit of these functions (the `<=` of the month search, the week 00 / weekday 0 checks, the year "
+                           "spills) breaks a proof or fails closed (self-tested by mutation, including the seeded change C07-4). Still hand + pinned on the compiled side: parse_integer, the "
+                           "timezone-offset arithmetic of parse_time (rs_offset), the character-level scanning.")
